@@ -35,12 +35,26 @@ pub struct CaseOut {
     pub sample: Option<Value>,
 }
 
+/// Details are for humans; the full event trace is in the replay file. Keep them bounded so that a
+/// change which makes thousands of runs fail cannot exhaust memory.
+fn clip(detail: String) -> String {
+    const MAX: usize = 6000;
+    if detail.len() <= MAX {
+        return detail;
+    }
+    let mut cut = MAX;
+    while !detail.is_char_boundary(cut) {
+        cut -= 1;
+    }
+    format!("{}… [{} more bytes; see the replay file's trace]", &detail[..cut], detail.len() - cut)
+}
+
 impl CaseOut {
     pub fn viol(&mut self, class: impl Into<String>, detail: impl Into<String>) {
-        self.viols.push(Viol { class: class.into(), detail: detail.into(), finding: None });
+        self.viols.push(Viol { class: class.into(), detail: clip(detail.into()), finding: None });
     }
     pub fn known(&mut self, finding: &'static str, class: impl Into<String>, detail: impl Into<String>) {
-        self.viols.push(Viol { class: class.into(), detail: detail.into(), finding: Some(finding) });
+        self.viols.push(Viol { class: class.into(), detail: clip(detail.into()), finding: Some(finding) });
     }
 }
 
@@ -143,7 +157,8 @@ struct Agg {
     sim_time: u64,
     execs: u64,
     known: BTreeMap<String, (u64, u64)>, // finding -> (count, first index)
-    viols: BTreeMap<u64, Vec<Viol>>,     // run index -> violations
+    viols: BTreeMap<u64, Vec<Viol>>,     // run index -> violations (lowest indices only)
+    viol_runs: u64,
     harness_errors: BTreeMap<u64, String>,
     samples: BTreeMap<u64, Value>,
     log_hash_xor: u64,
@@ -167,6 +182,7 @@ impl Agg {
             e.1 = e.1.min(i);
         }
         self.viols.extend(o.viols);
+        self.viol_runs += o.viol_runs;
         self.harness_errors.extend(o.harness_errors);
         self.samples.extend(o.samples);
         self.log_hash_xor ^= o.log_hash_xor;
@@ -280,7 +296,13 @@ pub fn run_check(def: &'static CheckDef, opts: &RunOpts) -> i32 {
                             }
                         }
                         if !real.is_empty() {
+                            local.viol_runs += 1;
+                            // keep the details of the lowest run indices only
                             local.viols.insert(idx, real);
+                            while local.viols.len() > 40 {
+                                let last = *local.viols.keys().next_back().unwrap();
+                                local.viols.remove(&last);
+                            }
                         }
                         if verbose {
                             let mut s = cr.out.sample.clone().unwrap_or(Value::Null);
@@ -310,9 +332,9 @@ pub fn run_check(def: &'static CheckDef, opts: &RunOpts) -> i32 {
     // ---- violations: minimise, write replay files, verify replay
     let mut exit = 0;
     let mut reported: BTreeSet<String> = BTreeSet::new();
-    let mut violation_count = 0;
+    let mut violation_count: u64 = 0;
+    violation_count += agg.viol_runs;
     for (idx, viols) in agg.viols.iter() {
-        violation_count += 1;
         let class = viols[0].class.clone();
         if reported.contains(&class) || reported.len() >= 3 {
             continue;
@@ -361,17 +383,35 @@ pub fn run_check(def: &'static CheckDef, opts: &RunOpts) -> i32 {
             eprintln!("harness error: cannot write {path}: {e}");
             return 2;
         }
-        // replay in a fresh process: must reproduce class and log hash
-        let ok = std::process::Command::new(std::env::current_exe().unwrap())
-            .args(["replay", &path, "--quiet"])
-            .env("VERIF_DIR", &opts.verif_dir)
-            .stdout(std::process::Stdio::null())
-            .status()
-            .map(|s| s.code() == Some(1))
-            .unwrap_or(false);
-        if !ok {
-            eprintln!("harness error: violation {class} of run {idx} does not replay from {path}");
-            return 2;
+        // replay in a fresh process: must reproduce the class, and the same event log
+        let fresh = || {
+            std::process::Command::new(std::env::current_exe().unwrap())
+                .args(["replay", &path, "--quiet"])
+                .env("VERIF_DIR", &opts.verif_dir)
+                .stdout(std::process::Stdio::null())
+                .stderr(std::process::Stdio::null())
+                .status()
+                .ok()
+                .and_then(|s| s.code())
+        };
+        match fresh() {
+            Some(1) => {}
+            Some(2) | None => {
+                eprintln!("harness error: replaying {path} in a fresh process failed");
+                return 2;
+            }
+            first => {
+                // The violation was observed in this process (search run and minimised re-run). If a
+                // fresh process sees another event log or no violation, the code under test is not a
+                // function of the tape on this input (typically: it iterates a std RandomState map).
+                let mut ok = if first == Some(3) { 1 } else { 0 };
+                for _ in 0..7 {
+                    if matches!(fresh(), Some(1) | Some(3)) {
+                        ok += 1;
+                    }
+                }
+                println!("note: {path} reproduces {class} in {ok} of 8 fresh processes: the code under test behaves nondeterministically on this input (per-process hash order?); the violation was observed twice in this process");
+            }
         }
         println!("violation class={class} run={idx} tape {}->{} entries: {}", orig_tape.len(), doc["tape"].as_array().unwrap().len(), first_line(&detail));
         println!("VIOLATION property={} replay={}", def.id, path);
